@@ -62,10 +62,13 @@ def len_pair(L, maxn=400):
 
 
 def observe_area(cat, o, inlets, nval):
-    """-> dict(err, cells, filled, paths)"""
+    """-> dict(err, cells, filled, paths); nval=None uses the default buffer size of the API"""
     try:
         with Watchdog(20):
-            cat.delineate_area(o, inlets if inlets else None, nval=nval)
+            if nval is None:
+                cat.delineate_area(o, inlets if inlets else None)
+            else:
+                cat.delineate_area(o, inlets if inlets else None, nval=nval)
     except ValueError:
         return {"err": True, "cells": [], "filled": [], "paths": []}
     cells = [int(c) for c in cat.idxcells_area]
@@ -92,7 +95,7 @@ def observe_river(gridmod, flowdir, s, nval):
     return cells, lens, df
 
 
-def observe_acc(gridmod, Grid, nr, nc, fd, w):
+def observe_acc(gridmod, Grid, nr, nc, fd, w, nprint=100):
     flow = make_grid(Grid, nr, nc, fd)
     field = None
     if w is not None:
@@ -101,7 +104,7 @@ def observe_acc(gridmod, Grid, nr, nc, fd, w):
     f0 = flow.data.copy()
     w0 = None if field is None else field.data.copy()
     with quiet(), Watchdog(30):
-        acc = gridmod.accumulate(flow, field)
+        acc = gridmod.accumulate(flow, field, nprint=nprint)
     same = bool(np.array_equal(flow.data, f0) and (field is None or np.array_equal(field.data, w0)))
     out = []
     nod = acc.nodata
@@ -134,7 +137,9 @@ def replay_grid_c06(ctx, gridmod, c, stats):
             return
     for o in range(n):
         for a in c["areas"][o]:
-            obs = observe_area(cat, o, a["inlets"], n + 2)
+            # acyclic catchments are also delineated once per grid with the API's default buffer size
+            use_default = (not a["cyclic"]) and a["inlets"] == [] and o == (sum(fd) % n)
+            obs = observe_area(cat, o, a["inlets"], None if use_default else n + 2)
             stats["areas"] += 1
             acase = dict(case, outlet=o, inlets=a["inlets"])
             if a["cyclic"]:
@@ -195,7 +200,8 @@ def replay_grid_c11(ctx, gridmod, c, stats):
         w = field_of(kind, n)
         for default in ((True, False) if kind == "unit" else (False,)):
             try:
-                out, same, acc = observe_acc(gridmod, Grid, nr, nc, fd, None if default else w)
+                out, same, acc = observe_acc(gridmod, Grid, nr, nc, fd, None if default else w,
+                                             nprint=[100, 1, 0, 3][(stats["accs"] + k) % 4])
             except TimeoutError as e:
                 ctx.violation("accumulate:hang", str(e), dict(case, field=kind))
                 return
